@@ -22,6 +22,15 @@ TOP_NAMES = ["pkg", "ns"]
 SUB_NAMES = ["a", "b", "_p"]
 PKGUTIL_INIT = "__path__ = __import__('pkgutil').extend_path(__path__, __name__)\n"
 PKGRES_INIT = "__import__('pkg_resources').declare_namespace(__name__)\n"
+# the spellings found in the wild: one-liners, with a leading docstring/comment, and the try/except idiom documented
+# by setuptools (indented declarations)
+PKG_STYLE_INITS = [
+    PKGUTIL_INIT,
+    PKGRES_INIT,
+    '"""Namespace package."""\n# declared below\n' + PKGUTIL_INIT,
+    "try:\n    __import__('pkg_resources').declare_namespace(__name__)\nexcept ImportError:\n    __path__ = __import__('pkgutil').extend_path(__path__, __name__)\n",
+    "if True:\n    __path__ = __import__('pkgutil').extend_path(__path__, __name__)\n",
+]
 
 
 # ------------------------------------------------------------------------------------------------
@@ -61,7 +70,7 @@ def _gen_dir(rng, files, sp, rel, name, cfg, depth, style):
         for form in init_forms:
             files[f"{d}__init__.{form}"] = _body(form, f"sp{sp}/{d}__init__.{form}")
     elif style == "pkgutil":
-        files[f"{d}__init__.py"] = rng.choice([PKGUTIL_INIT, PKGRES_INIT])
+        files[f"{d}__init__.py"] = rng.choice(PKG_STYLE_INITS)
     elif style == "namespace":
         files[d.rstrip("/")] = None
     n_children = rng.choice([0, 1, 2, 2, 3])
